@@ -81,6 +81,10 @@ def instances(tier, seed):
         s.cons = list(s.cons) + [Con('<=', X(1) * Pg('b2'), 12)]
         s.note = 'values set after transcription'
         add(spec=fam.with_horizon(s, H[mi]), cfg=Cfg(method, N=2, M=[1, 2][mi % 2], intg=intg or 'rk', grid=grids[mi], degree=2, scheme='radau'), when='value-after')
+    # two names for one quantity (a user variable assigned as horizon) with a guess through each: the later call wins, also after load
+    for method in ('MS', 'DC'):
+        for when in ('before', 'after'):
+            add(kind='alias-guess', method=method, when=when)
     # multi-stage OCPs (two directly declared stages, or a template used twice): saved before / after a transcription / after the master's
     # method object was replaced
     for when in ('before', 'after', 'edited-method'):
@@ -203,7 +207,65 @@ def run_multistage(item):
     return r
 
 
+def run_alias_guess(item):
+    """GROUND: v = ocp.variable(); ocp.set_T(v); set_initial(v, 2); set_initial(ocp.T, 3)  (and a time-expression guess for x): the loaded OCP starts
+    from the same point as the original (the horizon from the LATER call)"""
+    from rockit import MultipleShooting, DirectCollocation
+    method, when = item['method'], item['when']
+    viol, proved = [], []
+    tag = 'alias-guess|%s|save-%s' % (method, when)
+    with quiet():
+        ocp = Ocp(t0=0)
+        v = ocp.variable()
+        ocp.set_T(v)
+        ocp.subject_to(v >= 0.5)
+        x = ocp.state()
+        u = ocp.control()
+        ocp.set_der(x, u)
+        ocp.add_objective(ocp.integral(u * u) + v)
+        ocp.subject_to(ocp.at_t0(x) == 0)
+        ocp.subject_to(ocp.at_tf(x) == 1)
+        ocp.set_initial(v, 2)
+        ocp.set_initial(ocp.T, 3)
+        ocp.set_initial(x, ocp.t)
+        ocp.method(MultipleShooting(N=3) if method == 'MS' else DirectCollocation(N=2, degree=2))
+        ocp.solver('ipopt')
+        if when == 'after':
+            ocp._transcribed
+    fd, path = tempfile.mkstemp(suffix='.rockit', prefix='rvc18_')
+    os.close(fd)
+    try:
+        with quiet():
+            ocp.save(path)
+            ocp2 = Ocp.load(path)
+            ocp._transcribed
+            ocp2._transcribed
+            o1, o2 = ocp._method.opti, ocp2._method.opti
+            x1 = [float(a) for a in np.array(o1.debug.value(o1.x, o1.initial())).flatten()]
+            x2 = [float(a) for a in np.array(o2.debug.value(o2.x, o2.initial())).flatten()]
+            T1 = float(o1.debug.value(ocp.value(ocp.T), o1.initial()))
+        if not close(T1, 3.0):
+            viol.append({'property': PROP, 'key': 'alias-order|%s' % tag, 'label': 'T', 'cfg': method, 'spec': 'alias', 'detail': 'the original starts the horizon at %r, the later guess was 3' % T1})
+        if len(x1) != len(x2) or not all(close(a, c) for a, c in zip(x1, x2)):
+            viol.append({'property': PROP, 'key': 'x0-differs|%s' % tag, 'label': 'x0', 'cfg': method, 'spec': 'alias',
+                         'detail': 'starting point differs after load: original %s, loaded %s' % ([round(a, 4) for a in x1], [round(a, 4) for a in x2])})
+        else:
+            proved.append('loaded OCP starts from the same point (horizon guessed through two names)')
+    except Exception as e:
+        viol.append({'property': PROP, 'key': 'save-raises|%s' % tag, 'label': 'save/load', 'cfg': method, 'spec': 'alias', 'detail': str(e).strip().splitlines()[-1][:200]})
+    finally:
+        if os.path.exists(path):
+            os.remove(path)
+    res = {'stats': {'unsat': 0, 'sat': 0, 'unknown': 0, 'queries': 0, 'solver_s': 0.0}, 'obligations': len(proved) + len(viol), 'discharged': len(proved), 'nontrivial': proved, 'violations': viol,
+           'twins_ok': 0, 'twins_bad': 0, 'shape': tag, 'sample': {'kind': 'alias-guess', 'method': method, 'save': when}}
+    if viol:
+        res['status'] = 'violation'
+    return res
+
+
 def run(item):
+    if item.get('kind') == 'alias-guess':
+        return run_alias_guess(item)
     if item.get('kind') == 'multistage':
         return run_multistage(item)
     spec, cfg, when = item['spec'], item['cfg'], item['when']
